@@ -148,6 +148,9 @@ def build_frame(fr):
         raise AssertionError("builder produced %d rows for n=%d" % (len(df), n))
     if not fr["cols"]:
         df = pd.DataFrame(index=pd.RangeIndex(n))
+    if fr.get("range") and fr.get("index") is None:
+        start, step = fr["range"]
+        df.index = pd.RangeIndex(start, start + n * step, step)
     ic = fr.get("index")
     if ic is not None:
         arr = build_array(ic, n)
